@@ -12,6 +12,7 @@ import (
 	"sort"
 	"strconv"
 	"strings"
+	"sync"
 
 	kubeapps "k8s.io/api/apps/v1"
 	v1 "k8s.io/api/core/v1"
@@ -97,16 +98,27 @@ func slotsAnn(slots []int) *string {
 
 func tmplImage(tid string) string { return "img-" + tid }
 
+var tmplCache sync.Map
+
+// baseTemplate is the pod template with abstract id tid. It does not depend on the claim
+// templates, and it is fully defaulted already, so that client-side defaulting leaves it alone.
 func baseTemplate(setName, tid string, nclaims int) v1.PodTemplateSpec {
-	t := v1.PodTemplateSpec{
+	key := setName + "/" + tid
+	if t, ok := tmplCache.Load(key); ok {
+		return *t.(*v1.PodTemplateSpec).DeepCopy()
+	}
+	s := &apps.StatefulSet{}
+	s.Spec.Template = v1.PodTemplateSpec{
 		ObjectMeta: metav1.ObjectMeta{Labels: map[string]string{"app": setName}},
-		Spec: v1.PodSpec{Containers: []v1.Container{{Name: "main", Image: tmplImage(tid)}}},
+		Spec:       v1.PodSpec{Containers: []v1.Container{{Name: "main", Image: tmplImage(tid)}}},
 	}
-	for i := 0; i < nclaims; i++ {
-		t.Spec.Containers[0].VolumeMounts = append(t.Spec.Containers[0].VolumeMounts,
-			v1.VolumeMount{Name: fmt.Sprintf("c%d", i), MountPath: fmt.Sprintf("/data%d", i)})
-	}
-	return t
+	apps.SetObjectDefaults_StatefulSet(s)
+	// through JSON once, so that the representation is the one a decoded object has
+	b, _ := json.Marshal(s.Spec.Template)
+	t := &v1.PodTemplateSpec{}
+	json.Unmarshal(b, t)
+	tmplCache.Store(key, t)
+	return *t.DeepCopy()
 }
 
 func claimTemplates(n int) []v1.PersistentVolumeClaim {
@@ -569,9 +581,10 @@ func (w *World) AbsPVCs() []string {
 func (w *World) AbsFresh(name string, cached *apps.StatefulSet) []bool {
 	f := w.e.apiSet(name)
 	if f == nil {
-		return []bool{false, false, false}
+		return []bool{false, false, false, false}
 	}
-	return []bool{true, cached != nil && f.UID == cached.UID, f.DeletionTimestamp != nil}
+	return []bool{true, cached != nil && f.UID == cached.UID, f.DeletionTimestamp != nil,
+		cached != nil && f.ResourceVersion == cached.ResourceVersion}
 }
 
 // Snapshot is the full record of what a reconcile of the set is about to read.
